@@ -1133,6 +1133,8 @@ def search(ob, wit=None):
         return check_resolver("_resolve_drawing_path")
     if "_odf_length_to_px" in ob:
         return check_odf_length()
+    if "::_get_content_type/" in ob or "::guess_content_type/" in ob:
+        return check_ct_helper(ob.split("::")[1].split("/")[0])
     if "/rel-type#" in ob:
         return other_kinds_sweep(fmt)
     if "lookup-table-scope" in ob or "relationship-table-of-the-given-part" in ob or "relationships-of-the-slide-being-processed" in ob:
@@ -1290,6 +1292,40 @@ def check_accessors(cls, meth=None):
                     if got != (data or b""):
                         return fail("get_bytes().read()", {pay: data, "stored stream position": pre, "call": call}, f"{len(data or b'')} stored bytes",
                                     f"{len(got)} bytes" + ("" if len(got) != len(data or b"") else " (different content)"))
+    return None
+
+
+def check_ct_helper(which):
+    """Content-type helpers of the library (contracts/c14_access.py::run_helpers) on part names with every raster extension of the property in
+    lower / UPPER / Mixed case, several dots and dotted directories: xlsx `_get_content_type`, ODF `guess_content_type` (also the native
+    validation of the assumed mimetypes table: it knows the raster extensions case-insensitively)."""
+    import mimetypes
+    if which == "_get_content_type":
+        f = getattr(_imp("sharepoint2text.parsing.extractors.ms_modern.xlsx_extractor"), which, None)
+    else:
+        f = getattr(_imp("sharepoint2text.parsing.extractors.open_office._shared"), which, None)
+    if f is None:
+        return None
+    table = {"png": "image/png", "jpg": "image/jpeg", "jpeg": "image/jpeg", "gif": "image/gif", "bmp": "image/bmp"}
+    for ext, want in table.items():
+        for spell in (ext, ext.upper(), ext.capitalize()):
+            for stem in ("image1", "xl/media/image1", "media.v2/pic", "a.b", "Pictures/10000000.0001", "../media/i", ".hidden"):
+                name = f"{stem}.{spell}"
+                try:
+                    got = f(name)
+                except Exception as e:  # noqa
+                    got = f"raised {type(e).__name__}: {e}"
+                if got != want:
+                    return {"target": f"{which}({name!r})", "aspect": "content-type", "inputs": {"name": name}, "expected": want, "observed": repr(got)}
+    if which == "guess_content_type":
+        for name in ("Pictures/noextension", "Pictures/x.unknownext", "", "a.", "ObjectReplacements/Object 1"):
+            want = mimetypes.guess_type(name)[0] or "application/octet-stream"
+            try:
+                got = f(name)
+            except Exception as e:  # noqa
+                got = f"raised {type(e).__name__}: {e}"
+            if got != want:
+                return {"target": f"{which}({name!r})", "aspect": "content-type", "inputs": {"name": name}, "expected": want, "observed": repr(got)}
     return None
 
 
